@@ -14,10 +14,26 @@ func c29EdRun(line string) string {
 	if len(f) != 4 || f[0] != "ed" {
 		return "bad-op"
 	}
+	a := "ok"
 	if err := VerifySignature(vhUnhex(f[1]), vhUnhex(f[3]), vhUnhex(f[2])); err != nil {
-		return "fail"
+		a = "fail"
 	}
-	return "ok"
+	// the exported Verify function and the PublicKey method must agree with it
+	b := "fail"
+	if pk, err := NewPublicKey(vhUnhex(f[1])); err == nil {
+		ok1, err1 := Verify(pk, vhUnhex(f[2]), vhUnhex(f[3]))
+		ok2, err2 := pk.Verify(vhUnhex(f[2]), vhUnhex(f[3]))
+		if (ok1 && err1 == nil) != (ok2 && err2 == nil) {
+			return "paths-disagree"
+		}
+		if ok1 && err1 == nil {
+			b = "ok"
+		}
+	}
+	if a != b {
+		return "paths-disagree fn=" + a + " method=" + b
+	}
+	return a
 }
 
 var c29EdL, _ = new(big.Int).SetString("7237005577332262213973186563042994240857116359379907606001950938285454250989", 10)
